@@ -458,4 +458,512 @@ theorem walkExpr_renders (sc : Scope) :
 
 end
 
+/-! ## values and environments -/
+
+open SoyVerif.Spec.Eval (Val Out)
+
+mutual
+  /-- the JSON image of a Soy value (no floats; integers a double holds exactly) -/
+  def toJsV : Val → Option JVal
+    | .undefined => some .undefined
+    | .null => some .null
+    | .bool b => some (.bool b)
+    | .int i => if exact i then some (.num i) else none
+    | .float _ => none
+    | .str s => some (.str s)
+    | .list xs => (toJsList xs).map .arr
+    | .map kvs => (toJsKvs kvs).map .obj
+  def toJsList : List Val → Option (List JVal)
+    | [] => some []
+    | x :: r => match toJsV x, toJsList r with
+      | some a, some b => some (a :: b)
+      | _, _ => none
+  def toJsKvs : List (Bytes × Val) → Option (List (Bytes × JVal))
+    | [] => some []
+    | (k, v) :: r => match toJsV v, toJsKvs r with
+      | some a, some b => some ((k, a) :: b)
+      | _, _ => none
+end
+
+theorem toJsKvs_find : ∀ (kvs : List (Bytes × Val)) (jk : List (Bytes × JVal)) (k : Bytes), toJsKvs kvs = some jk →
+    toJsV ((Spec.Eval.find kvs k).getD .undefined) = some (prop jk k)
+  | [], jk, k, h => by
+    simp only [toJsKvs, Option.some.injEq] at h; subst h
+    simp [Spec.Eval.find, prop, toJsV]
+  | (k', v) :: r, jk, k, h => by
+    unfold toJsKvs at h
+    cases hv : toJsV v with
+    | none => simp [hv] at h
+    | some a =>
+      cases hr : toJsKvs r with
+      | none => simp [hv, hr] at h
+      | some b =>
+        simp only [hv, hr, Option.some.injEq] at h; subst h
+        unfold Spec.Eval.find prop
+        by_cases hk : (k' == k) = true
+        · simp [hk, hv]
+        · simp only [hk, Bool.false_eq_true, if_false]
+          exact toJsKvs_find r b k hr
+
+theorem toJsList_length : ∀ (xs : List Val) (js : List JVal), toJsList xs = some js → js.length = xs.length
+  | [], js, h => by simp only [toJsList, Option.some.injEq] at h; subst h; rfl
+  | x :: r, js, h => by
+    unfold toJsList at h
+    cases hv : toJsV x with
+    | none => simp [hv] at h
+    | some a =>
+      cases hr : toJsList r with
+      | none => simp [hv, hr] at h
+      | some b =>
+        simp only [hv, hr, Option.some.injEq] at h; subst h
+        simp [toJsList_length r b hr]
+
+theorem toJsList_getD : ∀ (xs : List Val) (js : List JVal) (n : Nat), toJsList xs = some js →
+    toJsV (xs.getD n .undefined) = some (js.getD n .undefined)
+  | [], js, n, h => by
+    simp only [toJsList, Option.some.injEq] at h; subst h
+    simp [toJsV]
+  | x :: r, js, n, h => by
+    unfold toJsList at h
+    cases hv : toJsV x with
+    | none => simp [hv] at h
+    | some a =>
+      cases hr : toJsList r with
+      | none => simp [hv, hr] at h
+      | some b =>
+        simp only [hv, hr, Option.some.injEq] at h; subst h
+        cases n with
+        | zero => simpa using hv
+        | succ m => simpa using toJsList_getD r b m hr
+
+/-- inversion: which Soy value has a given image -/
+theorem toJsV_num {v : Val} {i : Int} (h : toJsV v = some (.num i)) : v = .int i ∧ exact i = true := by
+  cases v <;> simp [toJsV] at h
+  · obtain ⟨he, rfl⟩ := h; exact ⟨rfl, he⟩
+  all_goals (first | (obtain ⟨_, h⟩ := h; cases h) | cases h)
+theorem toJsV_bool {v : Val} {b : Bool} (h : toJsV v = some (.bool b)) : v = .bool b := by
+  cases v <;> simp [toJsV] at h
+  · subst h; rfl
+  all_goals (first | (obtain ⟨_, h⟩ := h; cases h) | cases h)
+theorem toJsV_str {v : Val} {s : Bytes} (h : toJsV v = some (.str s)) : v = .str s := by
+  cases v <;> simp [toJsV] at h
+  · subst h; rfl
+  all_goals (first | (obtain ⟨_, h⟩ := h; cases h) | cases h)
+theorem toJsV_null {v : Val} (h : toJsV v = some .null) : v = .null := by
+  cases v <;> simp [toJsV] at h
+  · rfl
+  all_goals (first | (obtain ⟨_, h⟩ := h; cases h) | cases h)
+theorem toJsV_undefined {v : Val} (h : toJsV v = some .undefined) : v = .undefined := by
+  cases v <;> simp [toJsV] at h
+  · rfl
+  all_goals (first | (obtain ⟨_, h⟩ := h; cases h) | cases h)
+theorem toJsV_arr {v : Val} {js : List JVal} (h : toJsV v = some (.arr js)) : ∃ xs, v = .list xs ∧ toJsList xs = some js := by
+  cases v with
+  | list xs =>
+    refine ⟨xs, rfl, ?_⟩
+    unfold toJsV at h
+    cases hl : toJsList xs with
+    | none => simp [hl] at h
+    | some a => simp only [hl, Option.map_some, Option.some.injEq, JVal.arr.injEq] at h; subst h; rfl
+  | int i => unfold toJsV at h; split at h <;> cases h
+  | map kvs => unfold toJsV at h; cases hk : toJsKvs kvs <;> simp [hk] at h
+  | _ => simp [toJsV] at h
+theorem toJsV_obj {v : Val} {jk : List (Bytes × JVal)} (h : toJsV v = some (.obj jk)) :
+    ∃ kvs, v = .map kvs ∧ toJsKvs kvs = some jk := by
+  cases v with
+  | map kvs =>
+    refine ⟨kvs, rfl, ?_⟩
+    unfold toJsV at h
+    cases hl : toJsKvs kvs with
+    | none => simp [hl] at h
+    | some a => simp only [hl, Option.map_some, Option.some.injEq, JVal.obj.injEq] at h; subst h; rfl
+  | int i => unfold toJsV at h; split at h <;> cases h
+  | list xs => unfold toJsV at h; cases hk : toJsList xs <;> simp [hk] at h
+  | _ => simp [toJsV] at h
+
+/-- the environment relation: every visible Soy variable is held, as its JSON image, by the
+    JavaScript local the generator's scope assigns to it, or by `opt_data.k` if the scope does not
+    bind it (a template parameter, or nothing at all: `undefined` on both sides) -/
+def EnvRel (sc : Scope) (env : Spec.Eval.Env) (jenv : JEnv) : Prop :=
+  ∀ k : Bytes, k ≠ sIj →
+    match sc.lookup k with
+    | some g => ∃ kv, jenv.locals.find? (·.1 == g) = some kv ∧ toJsV (env.lookup k) = some kv.2
+    | none => toJsV (env.lookup k) = some (prop jenv.optData k)
+
+/-! ## the two semantics agree -/
+
+theorem truthy_toBoolean : ∀ (v : Val) (jv : JVal), toJsV v = some jv → Spec.Eval.truthy v = toBoolean jv := by
+  intro v jv h
+  cases v with
+  | int i => unfold toJsV at h; split at h <;> simp at h; subst h; rfl
+  | float f => simp [toJsV] at h
+  | list xs => unfold toJsV at h; cases hl : toJsList xs <;> simp [hl] at h; subst h; rfl
+  | map kvs => unfold toJsV at h; cases hl : toJsKvs kvs <;> simp [hl] at h; subst h; rfl
+  | _ => simp [toJsV] at h; subst h; simp [Spec.Eval.truthy, toBoolean]
+
+theorem exact_inI64 {i : Int} (h : exact i = true) : Spec.Eval.inI64 i = true := SoyVerif.Props.C04.exact_inI64 h
+
+theorem numRes_val {i : Int} {jv : JVal} (h : numRes i = .val jv) : exact i = true ∧ jv = .num i := by
+  unfold numRes at h
+  split at h
+  · rename_i he
+    simp only [JOut.val.injEq] at h
+    exact ⟨he, h.symm⟩
+  · cases h
+
+theorem intRes_of_exact {i : Int} (h : exact i = true) : Spec.Eval.intRes i = .val (.int i) := by
+  simp [Spec.Eval.intRes, exact_inI64 h]
+
+theorem toJsV_int {i : Int} (h : exact i = true) : toJsV (.int i) = some (.num i) := by simp [toJsV, h]
+
+/-- ToString of a primitive image is what the Soy value prints as -/
+theorem showVal_toStr : ∀ (v : Val) (jv : JVal) (s : Bytes), toJsV v = some jv → toStr? jv = some s →
+    Spec.Eval.showVal v = .val s := by
+  intro v jv s h hs
+  cases v with
+  | int i =>
+    unfold toJsV at h; split at h <;> simp at h; subst h
+    simp only [toStr?, Option.some.injEq] at hs; subst hs
+    simp [Spec.Eval.showVal]
+  | float f => simp [toJsV] at h
+  | list xs => unfold toJsV at h; cases hl : toJsList xs <;> simp [hl] at h; subst h; simp [toStr?] at hs
+  | map kvs => unfold toJsV at h; cases hl : toJsKvs kvs <;> simp [hl] at h; subst h; simp [toStr?] at hs
+  | undefined => simp [toJsV] at h; subst h; simp [toStr?] at hs
+  | null =>
+    simp [toJsV] at h; subst h
+    simp only [toStr?, Option.some.injEq] at hs; subst hs
+    simp [Spec.Eval.showVal, Spec.Eval.sNull]
+  | bool b =>
+    simp [toJsV] at h; subst h
+    simp only [toStr?, Option.some.injEq] at hs; subst hs
+    simp [Spec.Eval.showVal, Spec.Eval.sTrue, Spec.Eval.sFalse]
+  | str t =>
+    simp [toJsV] at h; subst h
+    simp only [toStr?, Option.some.injEq] at hs; subst hs
+    simp [Spec.Eval.showVal]
+
+theorem isStr_iff {v : Val} {jv : JVal} (h : toJsV v = some jv) : Spec.Eval.isStr v = isStr jv := by
+  cases v with
+  | int i => unfold toJsV at h; split at h <;> simp at h; subst h; rfl
+  | float f => simp [toJsV] at h
+  | list xs => unfold toJsV at h; cases hl : toJsList xs <;> simp [hl] at h; subst h; rfl
+  | map kvs => unfold toJsV at h; cases hl : toJsKvs kvs <;> simp [hl] at h; subst h; rfl
+  | _ => simp [toJsV] at h; subst h; rfl
+
+theorem toStr_defined {jv : JVal} {s : Bytes} (h : toStr? jv = some s) : jv ≠ .undefined := by
+  intro e; subst e; simp [toStr?] at h
+
+/-- the strict binary operators agree -/
+theorem binop_corr (op : BinOp) (jo : JsOp) (hop : opOf op = some jo) (hand : jo ≠ .and) (hor : jo ≠ .or)
+    (v1 v2 : Val) (a b jv : JVal) (h1 : toJsV v1 = some a) (h2 : toJsV v2 = some b)
+    (h : binop jo a b = .val jv) : ∃ v, Spec.Eval.binop op v1 v2 = .val v ∧ toJsV v = some jv := by
+  have arith : ∀ (f : Int → Int → Int) (x y : Int), a = .num x → b = .num y → numRes (f x y) = .val jv →
+      ∃ he : exact (f x y) = true, v1 = .int x ∧ v2 = .int y ∧ jv = .num (f x y) := by
+    intro f x y ha hb hr
+    subst ha; subst hb
+    obtain ⟨he, rfl⟩ := numRes_val hr
+    exact ⟨he, (toJsV_num h1).1, (toJsV_num h2).1, rfl⟩
+  have cmp : ∀ (x y : Int), a = .num x → b = .num y →
+      v1 = .int x ∧ v2 = .int y ∧ Spec.Eval.small x = true ∧ Spec.Eval.small y = true := by
+    intro x y ha hb
+    subst ha; subst hb
+    exact ⟨(toJsV_num h1).1, (toJsV_num h2).1, (toJsV_num h1).2, (toJsV_num h2).2⟩
+  cases op <;> simp [opOf] at hop <;> subst hop
+  -- mul
+  · cases a <;> cases b <;> simp [binop] at h
+    rename_i x y
+    obtain ⟨he, rfl, rfl, rfl⟩ := arith (· * ·) x y rfl rfl h
+    exact ⟨.int _, by simp [Spec.Eval.binop, intRes_of_exact he], toJsV_int he⟩
+  -- mod
+  · cases a <;> cases b <;> simp [binop] at h
+    rename_i x y
+    split at h
+    · cases h
+    · rename_i hy
+      obtain ⟨he, rfl, rfl, rfl⟩ := arith Int.tmod x y rfl rfl h
+      have : (y == 0) = false := by simpa using hy
+      exact ⟨.int _, by simp [Spec.Eval.binop, this, Spec.Eval.tmod, intRes_of_exact he], toJsV_int he⟩
+  -- add
+  · by_cases hn : ∃ x y, a = .num x ∧ b = .num y
+    · obtain ⟨x, y, rfl, rfl⟩ := hn
+      simp only [binop] at h
+      obtain ⟨he, rfl, rfl, rfl⟩ := arith (· + ·) x y rfl rfl h
+      exact ⟨.int _, by simp [Spec.Eval.binop, intRes_of_exact he], toJsV_int he⟩
+    · have hb' : binop .add a b = (if isStr a || isStr b then
+          match toStr? a, toStr? b with
+          | some s1, some s2 => .val (.str (s1 ++ s2))
+          | _, _ => .unspec
+        else .unspec) := by
+        cases a <;> cases b <;> first | rfl | (exfalso; exact hn ⟨_, _, rfl, rfl⟩)
+      rw [hb'] at h
+      split at h
+      · rename_i hs
+        cases ha : toStr? a with
+        | none => simp [ha] at h
+        | some s1 =>
+          cases hbs : toStr? b with
+          | none => simp [ha, hbs] at h
+          | some s2 =>
+            simp only [ha, hbs, JOut.val.injEq] at h
+            subst h
+            have hs' : (Spec.Eval.isStr v1 || Spec.Eval.isStr v2) = true := by
+              rw [isStr_iff h1, isStr_iff h2]; exact hs
+            have hv1 := showVal_toStr v1 a s1 h1 ha
+            have hv2 := showVal_toStr v2 b s2 h2 hbs
+            have hnint : ¬ ∃ x y, v1 = .int x ∧ v2 = .int y := by
+              rintro ⟨x, y, rfl, rfl⟩
+              simp [Spec.Eval.isStr] at hs'
+            have hu1 : v1 ≠ .undefined := by
+              intro e; subst e; simp [toJsV] at h1; subst h1; simp [toStr?] at ha
+            have hu2 : v2 ≠ .undefined := by
+              intro e; subst e; simp [toJsV] at h2; subst h2; simp [toStr?] at hbs
+            refine ⟨.str (s1 ++ s2), ?_, by simp [toJsV]⟩
+            cases v1 <;> cases v2 <;> first
+              | (exfalso; exact hnint ⟨_, _, rfl, rfl⟩)
+              | (exfalso; exact hu1 rfl)
+              | (exfalso; exact hu2 rfl)
+              | (exfalso; simp [Spec.Eval.isStr] at hs'; done)
+              | (simp only [Spec.Eval.binop, hs', if_true, hv1, hv2, Spec.Eval.Out.bind]; done)
+      · cases h
+  -- sub
+  · cases a <;> cases b <;> simp [binop] at h
+    rename_i x y
+    obtain ⟨he, rfl, rfl, rfl⟩ := arith (· - ·) x y rfl rfl h
+    exact ⟨.int _, by simp [Spec.Eval.binop, intRes_of_exact he], toJsV_int he⟩
+  -- eq
+  · cases a <;> cases b <;> simp [binop] at h <;> subst h
+    · have := toJsV_null h1; have := toJsV_null h2; subst_vars
+      exact ⟨.bool _, by simp [Spec.Eval.binop, Spec.Eval.equalsV, Spec.Eval.Out.bind], rfl⟩
+    · have := toJsV_bool h1; have := toJsV_bool h2; subst_vars
+      exact ⟨.bool _, by simp [Spec.Eval.binop, Spec.Eval.equalsV, Spec.Eval.Out.bind], rfl⟩
+    · have := (toJsV_num h1).1; have := (toJsV_num h2).1; subst_vars
+      exact ⟨.bool _, by simp [Spec.Eval.binop, Spec.Eval.equalsV, Spec.Eval.Out.bind], rfl⟩
+    · have := toJsV_str h1; have := toJsV_str h2; subst_vars
+      exact ⟨.bool _, by simp [Spec.Eval.binop, Spec.Eval.equalsV, Spec.Eval.Out.bind], rfl⟩
+  -- ne
+  · cases a <;> cases b <;> simp [binop] at h <;> subst h
+    · have := toJsV_null h1; have := toJsV_null h2; subst_vars
+      exact ⟨.bool _, by simp [Spec.Eval.binop, Spec.Eval.equalsV, Spec.Eval.Out.bind], rfl⟩
+    · have := toJsV_bool h1; have := toJsV_bool h2; subst_vars
+      exact ⟨.bool _, by simp [Spec.Eval.binop, Spec.Eval.equalsV, Spec.Eval.Out.bind], rfl⟩
+    · have := (toJsV_num h1).1; have := (toJsV_num h2).1; subst_vars
+      exact ⟨.bool _, by simp [Spec.Eval.binop, Spec.Eval.equalsV, Spec.Eval.Out.bind], rfl⟩
+    · have := toJsV_str h1; have := toJsV_str h2; subst_vars
+      exact ⟨.bool _, by simp [Spec.Eval.binop, Spec.Eval.equalsV, Spec.Eval.Out.bind], rfl⟩
+  -- gt
+  · cases a <;> cases b <;> simp [binop] at h
+    rename_i x y
+    obtain ⟨rfl, rfl, hx, hy⟩ := cmp x y rfl rfl
+    subst h
+    exact ⟨.bool _, by simp [Spec.Eval.binop, Spec.Eval.compareV, hx, hy], rfl⟩
+  -- ge
+  · cases a <;> cases b <;> simp [binop] at h
+    rename_i x y
+    obtain ⟨rfl, rfl, hx, hy⟩ := cmp x y rfl rfl
+    subst h
+    exact ⟨.bool _, by simp [Spec.Eval.binop, Spec.Eval.compareV, hx, hy], rfl⟩
+  -- lt
+  · cases a <;> cases b <;> simp [binop] at h
+    rename_i x y
+    obtain ⟨rfl, rfl, hx, hy⟩ := cmp x y rfl rfl
+    subst h
+    exact ⟨.bool _, by simp [Spec.Eval.binop, Spec.Eval.compareV, hx, hy], rfl⟩
+  -- le
+  · cases a <;> cases b <;> simp [binop] at h
+    rename_i x y
+    obtain ⟨rfl, rfl, hx, hy⟩ := cmp x y rfl rfl
+    subst h
+    exact ⟨.bool _, by simp [Spec.Eval.binop, Spec.Eval.compareV, hx, hy], rfl⟩
+  -- or, and
+  · exact absurd rfl hor
+  · exact absurd rfl hand
+
+/-! ### data references -/
+
+theorem bind_val {o : JOut} {f : JVal → JOut} {jv : JVal} (h : o.bind f = .val jv) : ∃ x, o = .val x ∧ f x = .val jv := by
+  cases o with
+  | val x => exact ⟨x, rfl, h⟩
+  | error => cases h
+  | unspec => cases h
+
+/-- the text accumulated so far is evaluated by every access built on it -/
+theorem accAst_base_val (jenv : JEnv) : ∀ (acc : AccessList) (x j : JsExpr) (jv : JVal), accAst acc x = some j →
+    eval jenv j = .val jv → ∃ jx, eval jenv x = .val jx
+  | .nil, x, j, jv, h, he => by
+    simp only [accAst, Option.some.injEq] at h; subst h
+    exact ⟨jv, he⟩
+  | .cons (.key p ns k) rest, x, j, jv, h, he => by
+    unfold accAst at h
+    split at h
+    · cases h
+    · cases ns with
+      | false =>
+        simp only [Bool.false_eq_true, if_false] at h
+        obtain ⟨jm, hm⟩ := accAst_base_val jenv rest (.member x k) j jv h he
+        unfold eval at hm
+        obtain ⟨jx, hx, _⟩ := bind_val hm
+        exact ⟨jx, hx⟩
+      | true =>
+        simp only [if_true] at h
+        cases rest with
+        | nil =>
+          simp only [Option.some.injEq] at h; subst h
+          unfold eval at he
+          obtain ⟨jx, hx, _⟩ := bind_val he
+          exact ⟨jx, hx⟩
+        | cons _ _ => cases h
+  | .cons (.index p ns i) rest, x, j, jv, h, he => by
+    unfold accAst at h
+    split at h
+    · cases h
+    · cases ns with
+      | false =>
+        simp only [Bool.false_eq_true, if_false] at h
+        obtain ⟨jm, hm⟩ := accAst_base_val jenv rest (.index x i) j jv h he
+        unfold eval at hm
+        obtain ⟨jx, hx, _⟩ := bind_val hm
+        exact ⟨jx, hx⟩
+      | true =>
+        simp only [if_true] at h
+        cases rest with
+        | nil =>
+          simp only [Option.some.injEq] at h; subst h
+          unfold eval at he
+          obtain ⟨jx, hx, _⟩ := bind_val he
+          exact ⟨jx, hx⟩
+        | cons _ _ => cases h
+  | .cons (.expr _ _ _) _, x, j, jv, h, _ => by simp [accAst] at h
+
+theorem getD_ge {α : Type} (l : List α) (n : Nat) (d : α) (h : l.length ≤ n) : l.getD n d = d := by
+  simp [List.getD, List.getElem?_eq_none h]
+
+/-- `xs[i]` on corresponding lists -/
+theorem nth_corr (xs : List Val) (js : List JVal) (i : Int) (h : toJsList xs = some js) (hi : ¬ i < 0) :
+    toJsV (Spec.Eval.nth xs i) = some (js.getD i.toNat .undefined) := by
+  unfold Spec.Eval.nth
+  have hl := toJsList_length xs js h
+  by_cases hr : 0 ≤ i ∧ i < (xs.length : Int)
+  · simp only [if_pos hr]
+    exact toJsList_getD xs js i.toNat h
+  · simp only [if_neg hr]
+    have : js.length ≤ i.toNat := by omega
+    rw [getD_ge js _ _ this]
+    rfl
+
+/-- one member access on corresponding values -/
+theorem member_corr (base : Val) (jx jv : JVal) (k : Bytes) (hk : k.isEmpty = false)
+    (hb : toJsV base = some jx) (h : getMember jx k = .val jv) :
+    ∃ v, (∀ last, Spec.Eval.access base false (.str k) last = .next v) ∧ toJsV v = some jv := by
+  cases jx <;> simp [getMember] at h
+  rename_i jk
+  subst h
+  obtain ⟨kvs, rfl, hkvs⟩ := toJsV_obj hb
+  exact ⟨_, fun last => by simp [Spec.Eval.access, hk], toJsKvs_find kvs jk k hkvs⟩
+
+theorem index_corr (base : Val) (jx jv : JVal) (i : Int) (hi : ¬ i < 0)
+    (hb : toJsV base = some jx) (h : getIndex jx i = .val jv) :
+    ∃ v, (∀ last, Spec.Eval.access base false (.int i) last = .next v) ∧ toJsV v = some jv := by
+  cases jx <;> simp [getIndex, hi] at h
+  rename_i js
+  subst h
+  obtain ⟨xs, rfl, hxs⟩ := toJsV_arr hb
+  exact ⟨_, fun last => by simp [Spec.Eval.access, hi], nth_corr xs js i hxs hi⟩
+
+theorem nullish_iff {v : Val} {jv : JVal} (h : toJsV v = some jv) :
+    isNullish jv = true ↔ (v = .undefined ∨ v = .null) := by
+  constructor
+  · intro hn
+    cases jv <;> simp [isNullish] at hn
+    · exact Or.inl (toJsV_undefined h)
+    · exact Or.inr (toJsV_null h)
+  · rintro (rfl | rfl) <;> (simp [toJsV] at h; subst h; rfl)
+
+/-- PARTIAL: the accesses of a data reference -/
+theorem accAst_corr (env : Spec.Eval.Env) (jenv : JEnv) : ∀ (acc : AccessList) (x j : JsExpr) (base : Val) (jx jv : JVal),
+    accAst acc x = some j → eval jenv x = .val jx → toJsV base = some jx → eval jenv j = .val jv →
+    ∃ v, Spec.Eval.evalAcc env acc base = .val v ∧ toJsV v = some jv
+  | .nil, x, j, base, jx, jv, h, hx, hb, he => by
+    simp only [accAst, Option.some.injEq] at h; subst h
+    rw [hx] at he
+    simp only [JOut.val.injEq] at he; subst he
+    exact ⟨base, by simp [Spec.Eval.evalAcc], hb⟩
+  | .cons (.key p ns k) rest, x, j, base, jx, jv, h, hx, hb, he => by
+    unfold accAst at h
+    split at h
+    · cases h
+    · rename_i hk
+      have hk' : k.isEmpty = false := by simpa using hk
+      cases ns with
+      | false =>
+        simp only [Bool.false_eq_true, if_false] at h
+        obtain ⟨jm, hm⟩ := accAst_base_val jenv rest (.member x k) j jv h he
+        have hm' : getMember jx k = .val jm := by
+          have := hm; unfold eval at this; rw [hx] at this; exact this
+        obtain ⟨v1, hacc, hv1⟩ := member_corr base jx jm k hk' hb hm'
+        obtain ⟨v, hv, hvj⟩ := accAst_corr env jenv rest (.member x k) j v1 jm jv h hm hv1 he
+        exact ⟨v, by unfold Spec.Eval.evalAcc; simp only [hacc]; exact hv, hvj⟩
+      | true =>
+        simp only [if_true] at h
+        cases rest with
+        | cons _ _ => cases h
+        | nil =>
+          simp only [Option.some.injEq] at h; subst h
+          unfold eval at he
+          rw [hx] at he
+          simp only [JOut.bind] at he
+          by_cases hn : isNullish jx = true
+          · simp only [hn, if_true, JOut.val.injEq] at he
+            subst he
+            have := (nullish_iff hb).mp hn
+            refine ⟨.null, ?_, rfl⟩
+            rcases this with rfl | rfl <;> rfl
+          · simp only [hn, Bool.false_eq_true, if_false] at he
+            unfold eval at he
+            rw [hx] at he
+            simp only [JOut.bind] at he
+            cases jx <;> simp [getMember] at he
+            rename_i jk
+            subst he
+            obtain ⟨kvs, rfl, hkvs⟩ := toJsV_obj hb
+            exact ⟨_, by unfold Spec.Eval.evalAcc; simp [Spec.Eval.access, hk', Spec.Eval.evalAcc], toJsKvs_find kvs jk k hkvs⟩
+  | .cons (.index p ns i) rest, x, j, base, jx, jv, h, hx, hb, he => by
+    unfold accAst at h
+    split at h
+    · cases h
+    · rename_i hi
+      cases ns with
+      | false =>
+        simp only [Bool.false_eq_true, if_false] at h
+        obtain ⟨jm, hm⟩ := accAst_base_val jenv rest (.index x i) j jv h he
+        have hm' : getIndex jx i = .val jm := by
+          have := hm; unfold eval at this; rw [hx] at this; exact this
+        obtain ⟨v1, hacc, hv1⟩ := index_corr base jx jm i hi hb hm'
+        obtain ⟨v, hv, hvj⟩ := accAst_corr env jenv rest (.index x i) j v1 jm jv h hm hv1 he
+        exact ⟨v, by unfold Spec.Eval.evalAcc; simp only [hacc]; exact hv, hvj⟩
+      | true =>
+        simp only [if_true] at h
+        cases rest with
+        | cons _ _ => cases h
+        | nil =>
+          simp only [Option.some.injEq] at h; subst h
+          unfold eval at he
+          rw [hx] at he
+          simp only [JOut.bind] at he
+          by_cases hn : isNullish jx = true
+          · simp only [hn, if_true, JOut.val.injEq] at he
+            subst he
+            have := (nullish_iff hb).mp hn
+            refine ⟨.null, ?_, rfl⟩
+            rcases this with rfl | rfl <;> rfl
+          · simp only [hn, Bool.false_eq_true, if_false] at he
+            unfold eval at he
+            rw [hx] at he
+            simp only [JOut.bind] at he
+            cases jx <;> simp [getIndex, hi] at he
+            rename_i js
+            subst he
+            obtain ⟨xs, rfl, hxs⟩ := toJsV_arr hb
+            exact ⟨_, by unfold Spec.Eval.evalAcc; simp [Spec.Eval.access, hi, Spec.Eval.evalAcc], nth_corr xs js i hxs hi⟩
+  | .cons (.expr _ _ _) _, x, j, base, jx, jv, h, _, _, _ => by simp [accAst] at h
+
 end SoyVerif.Props.C04c
